@@ -125,6 +125,9 @@ type c12outcome struct {
 	faultAt   int
 	faultKind string
 	stall    bool // timers set by the generator have already expired when consulted
+	sched    int    // scheduling decisions among the generator's own goroutines that did not take the first candidate
+	schedTasks int
+	gaveUp   string
 	dirstate int // 0 empty out dir, 1 user Go files of the same package already there, 2 stale output of another invocation there
 	events   []string
 	skipped  string
@@ -252,6 +255,16 @@ func (e *c12env) execC12(inv gencore.Invocation, other *gencore.Invocation, t *t
 	}
 	o.deviated = r.Deviated
 	o.events = r.Events
+	o.sched, o.schedTasks, o.gaveUp = r.SchedDeviated, r.SchedTasks, r.SchedGaveUp
+	if r.SchedTasks > 0 {
+		e.res.Counters["runs_in_which_the_generator_started_goroutines"]++
+		e.res.Counters["generator_goroutines_run_as_tasks"] += r.SchedTasks
+		e.res.Counters["goroutine_scheduling_decisions"] += r.SchedPicks
+		e.res.Counters["goroutine_scheduling_decisions_off_the_default"] += r.SchedDeviated
+	}
+	if r.SchedGaveUp != "" {
+		e.res.Counters["runs_the_goroutine_scheduler_let_go_of"]++
+	}
 	if r.Stragglers {
 		e.res.Counters["runs_with_goroutines_alive_at_return"]++
 	}
@@ -306,11 +319,14 @@ func (e *c12env) keyOf(o c12outcome) string {
 		}
 		return "maporder:" + strings.Join(ks, "+")
 	}
+	if o.sched > 0 {
+		return "schedule:interleaving-of-the-generator's-own-goroutines"
+	}
 	if o.toff != 0 {
 		return "clock"
 	}
 	if o.ambient != 0 {
-		return "ambient:pid-hostname-env"
+		return "ambient:pid-hostname-env-cpus"
 	}
 	if o.stall {
 		return "timer:fires-first-in-a-stalled-process"
@@ -366,9 +382,9 @@ func runC12(job *Job, res *Result) {
 		if len(o.deviated) > 0 {
 			res.Counters["runs_with_deviating_order"]++
 		}
-		nontrivial := len(o.deviated) > 0 || o.h != 0 || o.toff != 0 || o.ambient != 0 || o.dirstate != 0 || o.stall || o.faultAt >= 0
+		nontrivial := len(o.deviated) > 0 || o.sched > 0 || o.h != 0 || o.toff != 0 || o.ambient != 0 || o.dirstate != 0 || o.stall || o.faultAt >= 0
 		if nontrivial && o.skipped == "" {
-			e.distinct[hash64(inv.Hash(), fmt.Sprint(o.deviated), strings.Join(o.events, "|"), fmt.Sprint(o.h, o.toff, o.ambient, o.dirstate, o.stall, o.faultAt, o.faultKind))] = true
+			e.distinct[hash64(inv.Hash(), fmt.Sprint(o.deviated), strings.Join(o.events, "|"), fmt.Sprint(o.h, o.toff, o.ambient, o.dirstate, o.stall, o.faultAt, o.faultKind, o.sched))] = true
 		}
 		e.logH = hash64(fmt.Sprint(e.logH), fmt.Sprint(run), fmt.Sprint(t.Rec), fmt.Sprint(o.violated, o.class, o.detail), strings.Join(o.events, "|"))
 		if len(res.Samples) < 3 && len(o.deviated) > 0 {
@@ -464,10 +480,12 @@ func (e *c12env) shrinkC12(run int, inv gencore.Invocation, other *gencore.Invoc
 		return nil
 	}
 	// site-level minimisation: pin every deviating site that is not needed for the difference to sorted order
-	if len(o.deviated) > 1 && !o.late {
+	// (a site is also pinned when it is the only one, if the difference survives without it: then map order is not the cause)
+	if len(o.deviated) > 0 && !o.late {
+		single := len(o.deviated) == 1
 		for _, site := range append([]int(nil), o.deviated...) {
 			try := append(append([]int(nil), masked...), site)
-			if o2 := e.replayOutcome(inv, other, min, try); o2.violated && !o2.late && len(o2.deviated) > 0 {
+			if o2 := e.replayOutcome(inv, other, min, try); o2.violated && !o2.late && (len(o2.deviated) > 0 || single || o2.sched > 0) {
 				masked, o = try, o2
 			}
 		}
@@ -481,6 +499,9 @@ func (e *c12env) shrinkC12(run int, inv gencore.Invocation, other *gencore.Invoc
 	e.masked = nil
 	trace = append(trace, fmt.Sprintf("history=%s clock_offset=%s ambient=%d outdir_state=%d stalled=%v io_error=%s@%d", historyNames[o2.h], o2.toff, o2.ambient, o2.dirstate, o2.stall, o2.faultKind, o2.faultAt))
 	trace = append(trace, o2.events...)
+	if o2.schedTasks > 0 {
+		trace = append(trace, fmt.Sprintf("the generator started %d goroutines; %d scheduling decisions differed from the default order; scheduler gave up: %q", o2.schedTasks, o2.sched, o2.gaveUp))
+	}
 	rp := Replay{Property: "C12", FindingKey: key, Seed: e.job.Seed, Run: run, Invocation: &inv, Tape: min, Masked: masked, Trace: trace,
 		Observed: o.class + ": " + o.detail, Expected: "byte-identical files to the sorted-order fresh run of the same invocation", SiteTable: e.job.Sites}
 	rp.Other = other // needed by several legs (history, out-dir state, -dir mode)
